@@ -35,7 +35,7 @@ import (
 const porcupineTimeout = 120 * time.Second
 const f8sig = "counter:Threads_running-incremented-by-failed-BeginQuery"
 
-var watchdog = 60 * time.Second
+var watchdog = 120 * time.Second // generous: the box is shared; a fired watchdog is inconclusive unless reproduced
 
 type step struct {
 	Kind string `json:"kind"` // query op dup unreg-q unreg-op nested-op ; kill procs running connected
@@ -477,7 +477,7 @@ func main() {
 	r := core.NewRun("C37", "exploration",
 		"part 1: each case is one concurrent history of ProcessList API calls by 2-5 goroutines following the documented call protocol, checked with porcupine against a sequential model (plus Threads_connected as its own counter and conservation of both counters at the end); part 2: server scenarios with real connections checking SHOW PROCESSLIST contents, KILL QUERY / KILL CONNECTION targeting and counter conservation; distinct = (part, operation, outcome class)")
 	r.Assume("only protocol-conforming call sequences are generated (no RemoveConnection between a connection's own Begin and End, no nested queries); Threads_connected is incremented outside the list's mutex, so it is checked as a separate linearizable counter, not atomically with Processes()")
-	r.Assume("bounded restatement of 'KILL takes effect': the killed statement (SLEEP(1000) or an astronomically long cross join) must return an error within a 60 s watchdog; a fired watchdog is inconclusive unless the scenario is stuck again twice when re-run alone")
+	r.Assume("bounded restatement of 'KILL takes effect': the killed statement (SLEEP(1000) or an astronomically long cross join) must return an error within a 120 s watchdog; a fired watchdog is inconclusive unless the scenario is stuck again twice when re-run alone")
 	r.Extra("race_build", g4lib.RaceEnabled())
 
 	eng := core.NewEng("d") // also initialises the process-global status variables
@@ -489,7 +489,7 @@ func main() {
 	verifhook.SetPerturb(true, uint64(r.Seed))
 	pinnedF8(r)
 
-	nAPI := r.N(500, 20000)
+	nAPI := r.N(500, 15000)
 	var stalledAPI []apiHist
 	r.Parallel("api", 1, func(int) {
 		for i := 0; i < nAPI; i++ {
